@@ -155,8 +155,36 @@ func (r *Runner) Exec(c model.Call) (o model.Obs) {
 			}
 		}
 	}()
+	if !r.Bare {
+		// code that polls the database in a loop never returns under virtual time:
+		// cut it by cancelling the request (never panic inside a driver call: the
+		// unwinding would deadlock on database/sql's locks)
+		base := r.Ctx
+		if base == nil {
+			base = context.Background()
+		}
+		ctx, cancel := context.WithCancel(base)
+		defer cancel()
+		busy := false
+		r.W.SetBudget(OpStatementBudget, func() {
+			busy = true
+			cancel()
+		})
+		saved := r.Ctx
+		r.Ctx = ctx
+		o = r.exec(c)
+		r.Ctx = saved
+		r.W.SetBudget(0, nil)
+		if busy {
+			o.Err = fmt.Sprintf("BUSY-LOOP: more than %d SQL statements inside one %s operation (it was cancelled; it answered %q)", OpStatementBudget, c.Op.K, o.Err)
+		}
+		return o
+	}
 	return r.exec(c)
 }
+
+// OpStatementBudget bounds the SQL statements of a single API operation.
+const OpStatementBudget = 20000
 
 func (r *Runner) exec(c model.Call) model.Obs {
 	w := r.W
